@@ -438,7 +438,7 @@ def t11_coll(run, fx):
         if b is None:
             run.anchor_missing(rule, path)
             continue
-        bad, n, packed_in_closure = [], 0, False
+        bad, n, packed_in_closure, packed_sites = [], 0, False, 0
         for fb in fx.family(b):
             for bi, t in fb.calls():
                 p = t["callee"].get("path") or ""
@@ -454,8 +454,11 @@ def t11_coll(run, fx):
                     what = ga.split("::")[-1]
                 if not any(what == k or name == k for k in ok):
                     bad.append("%s::<%s>" % (name, ga) if ga else name)
-                if fb.kind == "Closure" and what == "PackedU16":
-                    packed_in_closure = True
+                if what == "PackedU16":
+                    packed_sites += 1
+                    # the per-index read sits in a closure (map/collect) or in a loop of the function itself
+                    if fb.kind == "Closure" or any(bi in body_ for _h, body_, _s in __import__("loops").natural_loops(fb)):
+                        packed_in_closure = True
         if bad:
             run.fail(rule, "collection:%s" % path.split("::")[2].split(" ")[0], "%s reads %s: the collection directory consists of UInt32 and 255UInt16 values only" % (path, sorted(set(bad))),
                      "%s:%s" % (b.file, b.line))
